@@ -21,6 +21,9 @@ func ruleR19_1(w *World, r *Report) {
 	}
 	n := 0
 	for _, f := range withClosures(fn) {
+		if f != fn {
+			flatRoot(f)
+		}
 		for _, c := range callsNamed(f, "patchEach") {
 			n++
 			if f == fn {
@@ -40,11 +43,21 @@ func ruleR19_1(w *World, r *Report) {
 			call, _ := c.(*ssa.Call)
 			okErr := false
 			if call != nil {
-				okErr, _ = errorEdgeReturns(f, errResult(call))
+				okErr, _ = errorEdgeReturns(call.Parent(), errResult(call))
+				// inside a new helper: the body hands the helper's result on unchanged
+				for h := call.Parent(); okErr && h != f; {
+					sites := helperSites[h]
+					if !flattenable[h] || len(sites) != 1 || tailReturn(sites[0]) == nil {
+						okErr = false
+						break
+					}
+					h = sites[0].Parent()
+				}
 			}
 			r.Check(handed && okErr && inLoop(c.Block()), "document.Patch/patchEach in transaction", u.Pos(c.Pos()), "every operation inside Transaction, errors abort", "patchEach is not applied to every operation inside the Transaction body with its error returned (a failing patch would leave the earlier ones applied)")
 		}
 	}
+	flatRoot(fn)
 	if n < 2 {
 		r.Lost("document.Patch: the direct and the transactional patchEach")
 	}
